@@ -104,9 +104,9 @@ ProviderOK(Certs, chain, latest, pred, hasPred, now) == ProviderRule(Certs, chai
      - the key is authenticated by a chain that verifies against the active (latest, valid) TRC, or,
        only if no chain of that key does, against the predecessor during the grace period;
      - among such chains the latest-expiring one;
-     - expiry = min(chain expiry, TRC validity); in grace also bounded by the grace-period end and the
-       predecessor's validity (weak reading: the bound by the latest TRC's own validity may be left
-       out in grace -- it only differs if the grace period outlasts the TRC that announces it).   *)
+     - expiry = min(chain expiry, TRC validity); in grace ALSO bounded by the grace-period end and the
+       predecessor's validity, i.e. min(chain expiry, latest TRC validity, grace end, predecessor
+       validity): "the earliest of the chain's expiry and the TRC validity" holds in grace as well.  *)
 Min2(a, b) == IF a <= b THEN a ELSE b
 ChainKey(Certs, ch) == Certs[ch[1]].key
 ChainExp(Certs, ch) == Certs[ch[1]].na
@@ -130,9 +130,10 @@ SignerRule(Certs, chains, keys, latest, pred, hasPred, now, s) ==
          ELSE IF s.chain \notin G THEN "chain-verifies-against-no-active-trc"
          ELSE IF ~s.ingrace THEN "grace-flag-missing"
          ELSE IF \E c \in G : ChainExp(Certs, c) > e THEN "not-latest-expiring-chain"
-         ELSE IF s.exp \notin {Min2(Min2(e, latest.nb + latest.grace), pred.na),
-                              Min2(Min2(Min2(e, latest.nb + latest.grace), pred.na), latest.na)}
-              THEN "grace-expiry-not-min-of-chain-grace-end-predecessor"
+         ELSE IF s.exp # Min2(Min2(Min2(e, latest.nb + latest.grace), pred.na), latest.na) THEN
+              IF s.exp = Min2(Min2(e, latest.nb + latest.grace), pred.na)
+                THEN "grace-expiry-beyond-latest-trc-validity"
+                ELSE "grace-expiry-not-min-of-chain-grace-end-predecessor"
          ELSE ""
 -----------------------------------------------------------------------------
 (* C37: certificate renewal requests.  A request is
